@@ -55,6 +55,15 @@ structure Column where
 inductive KeyType | none | unique | spatial | fulltext
   deriving DecidableEq, Repr, Inhabited
 
+/-- the part of an index record that `Table.Diff` keeps aside as `previous` when an index is redefined -/
+structure IndexDef where
+  name : String
+  typ : KeyType := .none
+  indexType : String := ""
+  isPk : Bool := false
+  cols : List String := []
+  deriving DecidableEq, Repr, Inhabited
+
 structure Index where
   name : String
   oldName : String := ""
@@ -63,7 +72,11 @@ structure Index where
   indexType : String := ""      -- model.IndexType.String(): "" | "BTREE" | "HASH" | "RTREE"
   isPk : Bool := false          -- CnsTyp == ConstraintPrimaryKey
   cols : List String := []
+  prev : Option IndexDef := none   -- `previous`: the old side's definition of a redefined index (set by Diff only)
   deriving DecidableEq, Repr, Inhabited
+
+def Index.toDef (i : Index) : IndexDef :=
+  { name := i.name, typ := i.typ, indexType := i.indexType, isPk := i.isPk, cols := i.cols }
 
 structure ForeignKey where
   name : String
